@@ -19,6 +19,11 @@ Ops (ints are `i64`, `<raw>` is `none | one x | many x*`, `<oraw>` is `one x | m
                                            group = the tracked open orders, sorted by exchange, pairwise distinct)
   eng on|off cmdx req* / req* / req* / req*   (Command::ClosePositions: the strategy's cancels / its opens / the algo
                                            cancels / the algo opens)
+  engl <links> <order> on|off ...          the same call as `eng` on an engine assembled differently: <links> = three
+                                           letters by exchange label (H healthy, C closed, M no transmitter: C and M are
+                                           dead), <order> = a permutation of 012 (the order in which the exchanges were
+                                           added to IndexedInstruments; observations are in label space, the model does
+                                           not depend on it). `eng` = `engl HCC 012`.
 `n.map k`, `n.mut k`, `o.map k`, `o.mut k` are `bad-op` when an item + k leaves i64 (the closure is the harness's).
 -/
 namespace BarterModel.Driver.C03N
@@ -267,7 +272,17 @@ def parseEng : List String → Option EngCase
     then none else some ⟨enabled, ev, c, o⟩
   | _ => none
 
-def obsEng (c : EngCase) : List String :=
+/-- `engl <links> <order> rest`: the dead-link predicate the letters denote and the rest of the op -/
+def parseEngl : List String → Option ((Nat → Bool) × List String)
+  | links :: order :: rest =>
+    let ls := links.toList
+    let okL := ls.length == 3 && ls.all (fun c => c == 'H' || c == 'C' || c == 'M')
+    let okO := ["012", "021", "102", "120", "201", "210"].contains order
+    let okT := match rest with | "on" :: _ :: _ => true | "off" :: _ :: _ => true | _ => false
+    if okL && okO && okT then some ((fun e => (ls.getD e 'C') != 'H'), rest) else none
+  | _ => none
+
+def obsEng (c : EngCase) (deadLink : Nat → Bool := deadLink) : List String :=
   match engineAudit deadLink c.enabled c.ev c.algoC c.algoO with
   | .feedEnded => ["feedended"]
   | .process p =>
@@ -367,6 +382,13 @@ def model : Drv St where
       else if op == "eng" then
         match parseEng rest with
         | some c => (s, obsEng c)
+        | none => (s, ["bad-op"])
+      else if op == "engl" then
+        match parseEngl rest with
+        | some (dead, rest) =>
+          match parseEng rest with
+          | some c => (s, obsEng c dead)
+          | none => (s, ["bad-op"])
         | none => (s, ["bad-op"])
       else (s, ["bad-op"])
 
@@ -596,7 +618,10 @@ def spec : Drv SpecSt where
                   ++ [line "gunrec" (specShape all)])
           | _, _, _, _ => (s, ["bad-op"])
         | _ => (s, ["bad-op"])
-      else if op == "eng" then
+      else if op == "eng" || op == "engl" then
+        match (if op == "engl" then parseEngl rest else some (deadLink, rest)) with
+        | none => (s, ["bad-op"])
+        | some (deadLink, rest) =>
         match parseEng rest with
         | some c =>
           -- the failures of the stage that failed, as (cancel side, open side), and their concatenation
